@@ -55,6 +55,9 @@ CHECKS = {
     "C19": dict(cat="model_checking", ref="§4 C19", tech="TLC model checking of the instance machine (Instances.tla: frame property, solo-run results, process-wide JITTER_ROUNDS cache; negative controls with a global and a thread-local cache) + TLC-enumerated interleavings executed on persistent OS threads with background load, each instance validated by Trace_Stream against its solo twin; Send/Sync static assertion compiled separately",
                 text="All interleavings of constructors and outputs of up to three instances over two threads are explored on the model; complete interleavings printed by TLC are executed on real threads (instances moved between persistent workers, unscripted background threads constructing generators of the same kinds from zero seeds) and every instance's stream must equal its solo twin's; a new_with_timer JitterRng must be unaffected by JitterRng::new(); the Send+Sync assertions must compile.",
                 note=TB + "; the sequencer enforces the interleaving (no real data race is attempted: all generator state is owned)"),
+    "C18": dict(cat="model_checking", ref="§4 C18", tech="trace validation per build configuration: the reference configuration's trace is validated by the TLA+ trace specifications, every other configuration's trace must be the same behaviour (Trace_Same, checked by TLC)",
+                text="A fixed corpus (algorithm, seeding, mixed-call and scripted-timer JitterRng histories incl. deltas around 2^31/2^32) is executed by the harness built with opt-level 0/3 x overflow checks+debug assertions on/off x serde on/off; the dev/serde trace is validated against the specification and TLC requires every other trace to coincide with it event by event (values, Ok/Err, panics, readings consumed).",
+                note=TB + "; quick: 3 of the 8 configurations (dev+serde, release+serde, opt0-unchecked without serde); thorough: all 8; the corpus is fixed per seed"),
 }
 
 NOT_YET = {}
